@@ -284,7 +284,7 @@ var StructTypes = []reflect.Type{
 	T(CN1{}), T(CN2{}), T(NMapHolder{}),
 	T(ManyF{}), T(ManyL{}),
 	T(Node{}), T(FNode{}), T(Ping{}), T(Pong{}), T(ENode{}), T(DeepNil{}),
-	T(MapAndLists{}), T(Wrap{}), T(WrapList{}), T(PtrTime{}), T(Named{}),
+	T(MapAndLists{}), T(Wrap{}), T(WrapList{}), T(PtrTime{}), T(Named{}), T(SelfAny{}), T(SelfAnyList{}),
 }
 
 // TypeByName finds a zoo struct type.
@@ -487,4 +487,17 @@ type Named struct {
 	Ll []Label
 	M  map[Label]Status
 	MV map[string]Ratio
+}
+
+// SelfAny / SelfAnyList: self-referential types from which an interface slot is reachable.
+type SelfAny struct {
+	Next *SelfAny
+	X    []interface{}
+	N    int32
+}
+
+type SelfAnyList struct {
+	L []SelfAnyList
+	M map[string]interface{}
+	P *SelfAny
 }
